@@ -37,6 +37,11 @@ class Ctx:
         self.labels = []
         self.is_nontrivial = False
         self.notes = {}
+        self.cross_value = None
+
+    def value(self, v):
+        """A result that must be identical in every shard process (e.g. under every hash seed)."""
+        self.cross_value = repr(v)
 
     def label(self, *names):
         for n in names:
@@ -89,7 +94,7 @@ def exc_signature(e):
 
 class Clause:
     def __init__(self, name, strategy=None, check=None, quick=200, thorough=2000,
-                 rule="", cases=None, floors=None, fuzz=False, essential=None, doc=""):
+                 rule="", cases=None, floors=None, fuzz=False, essential=None, doc="", cross_shard=False):
         self.name = name
         self.strategy = strategy
         self.check = check
@@ -100,6 +105,7 @@ class Clause:
         self.floors = floors or {}  # label -> minimal fraction (generator-distribution check)
         self.fuzz = fuzz            # eligible for the coverage-guided stage
         self.doc = doc
+        self.cross_shard = cross_shard  # every shard runs the *same* generated cases; values compared across shards
 
     @property
     def exhaustive(self):
@@ -122,6 +128,7 @@ def run_case(clause, case):
     except Skip as s:
         out.update(outcome="skip", skip=s.reason)
     out["labels"] = ctx.labels
+    out["value"] = ctx.cross_value
     out["nontrivial"] = ctx.is_nontrivial and out["outcome"] != "skip"
     return out
 
